@@ -19,7 +19,7 @@ EXTENDS Arshal, TLC, Json
 
 CONSTANTS Types, D, MOpts, UOpts, Modes, EmitCases
 
-VARIABLES mode, ti, a, b, oi
+VARIABLES ph, mode, ti, a, b, oi
 
 \* ------------------------------------------------------------------ universes
 RECURSIVE Product(_)
@@ -144,21 +144,29 @@ T == Types[ti]
 MO == MOpts[oi]
 UO == UOpts[oi]
 
-Init == \/ /\ "m" \in Modes /\ mode = "m"
-           /\ ti \in 1..Len(Types) /\ a \in Values(Types[ti], D) /\ b = 0 /\ oi \in 1..Len(MOpts)
-        \/ /\ "u" \in Modes /\ mode = "u"
-           /\ ti \in 1..Len(Types) /\ a \in Values(Types[ti], D) /\ b \in Inputs(Types[ti], D) /\ oi \in 1..Len(UOpts)
-        \/ /\ "g" \in Modes /\ mode = "g"
-           /\ ti \in 1..Len(Types) /\ a \in Inputs(Types[ti], D) /\ b \in Inputs(Types[ti], D) /\ oi \in 1..Len(UOpts)
-Next == UNCHANGED <<mode, ti, a, b, oi>>
-Spec == Init /\ [][Next]_<<mode, ti, a, b, oi>>
+\* one initial state per (mode, type, option set); its successors are the cases, so that the
+\* workers share the enumeration
+Init == /\ mode \in {x \in {"m", "u", "g"} : x \in Modes}
+        /\ ti \in 1..Len(Types)
+        /\ oi \in 1..Len(IF mode = "m" THEN MOpts ELSE UOpts)
+        /\ ph = "pick" /\ a = 0 /\ b = 0
+Next == /\ ph = "pick" /\ ph' = "case"
+        /\ UNCHANGED <<mode, ti, oi>>
+        /\ \/ mode = "m" /\ a' \in Values(Types[ti], D) /\ b' = 0
+           \/ mode = "u" /\ a' \in Values(Types[ti], D) /\ b' \in Inputs(Types[ti], D)
+           \/ mode = "g" /\ a' \in Inputs(Types[ti], D) /\ b' \in Inputs(Types[ti], D)
+vars == <<ph, mode, ti, a, b, oi>>
+Spec == Init /\ [][Next]_vars
 
 \* ------------------------------------------------------------------ theorems
-RECURSIVE HasAny(_), HasOmitEmpty(_)
+RECURSIVE HasAny(_), HasOmitEmpty(_), HasOmit(_)
 HasAny(t) ==
     \/ t.k = "any"
     \/ t.k \in {"slice", "array", "ptr", "map"} /\ HasAny(t.e)
     \/ t.k = "struct" /\ \E i \in 1..Len(t.f) : HasAny(t.f[i].t)
+HasOmit(t) ==
+    \/ t.k \in {"slice", "array", "ptr", "map"} /\ HasOmit(t.e)
+    \/ t.k = "struct" /\ \E i \in 1..Len(t.f) : t.f[i].omitempty \/ t.f[i].omitzero \/ HasOmit(t.f[i].t)
 HasOmitEmpty(t) ==
     \/ t.k \in {"slice", "array", "ptr", "map"} /\ HasOmitEmpty(t.e)
     \/ t.k = "struct" /\ \E i \in 1..Len(t.f) : t.f[i].omitempty \/ HasOmitEmpty(t.f[i].t)
@@ -169,20 +177,26 @@ HasFolding(t) ==
     \/ t.k \in {"slice", "array", "ptr", "map"} /\ HasFolding(t.e)
     \/ t.k = "struct" /\ \E i \in 1..Len(t.f) : t.f[i].casing = 1 \/ HasFolding(t.f[i].t)
 
-ParseRender == mode = "m" =>
+ParseRender == (ph = "case" /\ mode = "m") =>
     LET j == Marshal(T, a, MO, NoSt) IN ~IsErr(j) => ParseJ(Render(j)) = j
 
-RoundTrip == mode = "m" =>
+RoundTrip == (ph = "case" /\ mode = "m") =>
     LET j == Marshal(T, a, MO, NoSt) IN
     ~IsErr(j) =>
         LET u == UnmarshalJ(T, Zero(T), j, MO) IN
         /\ u.ok
-        /\ Marshal(T, u.v, MO, NoSt) = j
-        /\ (~HasOmitEmpty(T) /\ ~(MO.sn /\ HasAny(T))) => Norm(T, u.v) = Norm(T, a)
+        /\ LET j2 == Marshal(T, u.v, MO, NoSt) IN
+           /\ ~IsErr(j2)
+           \* with omit options the second output may be smaller (a pointer to a nil pointer is
+           \* written as null and comes back as a nil pointer, which is omitted): a fixed point
+           \* is reached after one round
+           /\ ~(HasOmit(T) \/ MO.oz) => j2 = j
+           /\ LET u2 == UnmarshalJ(T, Zero(T), j2, MO) IN u2.ok /\ Marshal(T, u2.v, MO, NoSt) = j2
+        /\ (~HasOmit(T) /\ ~MO.oz /\ ~(MO.sn /\ HasAny(T))) => Norm(T, u.v, MO) = Norm(T, a, MO)
 
 \* (where differently spelled names reach the same field, the order of members matters and the
 \* merge of two texts is not defined by the names alone: excluded)
-MergeLaw == (mode = "g" /\ ~HasDup(a) /\ ~HasDup(b) /\ ~UO.ci /\ ~HasFolding(T)) =>
+MergeLaw == (ph = "case" /\ mode = "g" /\ ~HasDup(a) /\ ~HasDup(b) /\ ~UO.ci /\ ~HasFolding(T)) =>
     LET r1 == UnmarshalJ(T, Zero(T), a, UO) IN
     r1.ok =>
         LET r2 == UnmarshalJ(T, r1.v, b, UO) IN
@@ -190,7 +204,7 @@ MergeLaw == (mode = "g" /\ ~HasDup(a) /\ ~HasDup(b) /\ ~UO.ci /\ ~HasFolding(T))
             LET r3 == UnmarshalJ(T, Zero(T), MergeJ(a, b), UO) IN
             r3.ok /\ r3.v = r2.v
 
-FrameLaw == (mode = "u" /\ b.t = "obj") =>
+FrameLaw == (ph = "case" /\ mode = "u" /\ b.t = "obj") =>
     LET r == UnmarshalJ(T, a, b, UO)
         names == {b.m[i][1] : i \in 1..Len(b.m)} IN
     r.ok =>
@@ -202,11 +216,11 @@ FrameLaw == (mode = "u" /\ b.t = "obj") =>
                   KeyName(T.key, a.m[i][1]) \notin names /\ T.key.k = "str" => MapHas(r.v.m, a.m[i][1]) /\ MapGet(r.v.m, a.m[i][1]) = a.m[i][2]
 
 \* ------------------------------------------------------------------ emission
-EmitM == (EmitCases /\ mode = "m") =>
+EmitM == (EmitCases /\ ph = "case" /\ mode = "m") =>
     LET j == Marshal(T, a, MO, NoSt) IN
     PrintT(ToJson(<<"m", T, a, MO, ~IsErr(j), IF IsErr(j) THEN <<>> ELSE Render(j)>>))
 
-EmitU == (EmitCases /\ mode = "u") =>
+EmitU == (EmitCases /\ ph = "case" /\ mode = "u") =>
     LET r == UnmarshalJ(T, a, b, UO) IN
     PrintT(ToJson(<<"u", T, a, UO, Render(b), r.ok, IF r.ok THEN r.v ELSE 0>>))
 =============================================================================
